@@ -13,7 +13,8 @@ RESERVED_TYPE_NAMES = {"ResponseData", "Variables", "Boolean", "Float", "Int", "
 
 class DocGen:
     def __init__(self, schema, rng, max_depth=3, p_alias=0.2, p_frag=0.3, p_variant=0.45, p_typename_obj=0.15,
-                 typename_only=True, dup_inline=True, use_args=True, recursive=True):
+                 typename_only=True, dup_inline=True, use_args=True, recursive=True, literal_args=0.0):
+        self.literal_args = literal_args
         self.s = schema
         self.rng = rng
         self.max_depth = max_depth
@@ -116,6 +117,11 @@ class DocGen:
             return None
         parts = []
         for an, at in f["args"]:
+            lit = self.literal_for(at) if self.rng.random() < self.literal_args else None
+            if lit is not None:
+                parts.append("%s: %s" % (an, lit))
+                self.features.add("argument-literal")
+                continue
             # bind to a fresh variable of exactly the argument's type
             self.varn += 1
             vn = self.rng.choice(["v%d", "varName%d", "snake_var%d"]) % self.varn
@@ -123,6 +129,32 @@ class DocGen:
             parts.append("%s: $%s" % (an, vn))
             self.features.add("argument-variable")
         return "(" + ", ".join(parts) + ")"
+
+    STRING_LITERALS = ['"plain"', '"with \\"quotes\\" and \\\\ backslash"', '"unicode é ☃ \\u00e9"', '"tab\\tnewline\\n"', '""',
+                       '"""block string\n  with "quotes", # not a comment, and é"""', '"# not a comment"', '"{ } ( ) ... $x"']
+
+    def literal_for(self, t):
+        nullable = t[0] != "nn"
+        while t[0] == "nn":
+            t = t[1]
+        if t[0] == "list":
+            return "[]" if self.rng.random() < 0.5 or True else None
+        b = t[1]
+        if nullable and self.rng.random() < 0.15:
+            return "null"
+        if b == "String":
+            return self.rng.choice(self.STRING_LITERALS)
+        if b == "Int":
+            return self.rng.choice(["0", "-7", "42"])
+        if b == "Float":
+            return self.rng.choice(["1.5", "-0.25", "1e3"])
+        if b == "Boolean":
+            return self.rng.choice(["true", "false"])
+        if b == "ID":
+            return self.rng.choice(['"id-1"', "17"])
+        if self.s.kind(b) == "enum":
+            return self.rng.choice(self.s.types[b]["values"])
+        return None
 
     def field(self, f, depth, used):
         s, rng = self.s, self.rng
